@@ -174,4 +174,33 @@ CHECKS = {
         'design_ref': 'DESIGN.md 6 C20',
         'note': 'Names violating disjointness on the unchanged tree are inherent in the naming scheme and listed one by one as known findings (temporaries without underscore, matcher<n>, self, builtins); a new colliding name is a violation.',
     },
+    'C12': {
+        'category': 'other',
+        'technique': 'ground obligations reduced by a congruence lemma (identical program text => identical behaviour); bounded differential stand-in only when textual identity is lost',
+        'text': 'Contracts cannot prove two different 6000-line parsers equivalent on all descriptions. The universally quantified statement is reduced to ground '
+                'obligations: G0 sourcer/parser.py is byte-identical to the source the current tree generates from grammar.txt (hence ONE program: same tree / same '
+                'rejection on every description), G1 generation 1 accepts grammar.txt, G2 generation 2 == generation 1 in a scratch copy, G3 the run-time inside '
+                'parser.py is textually the verified templates. If G0 fails, both parsers are compared on a corpus + corruptions (bounded, labelled so).',
+        'design_ref': 'DESIGN.md 6 C12',
+        'note': 'Level "other": evaluation of the real generator + congruence; equivalence when texts differ is only bounded (a concrete distinguishing description, failed G1 or G2 is a violation).',
+    },
+    'C18': {
+        'category': 'proof',
+        'technique': 'contract-based verification of write frames / ownership: proved heap frames (_run locals, class-body fragment, _finalize_parse_info) + exact syntactic frame analysis of emitted and run-time code',
+        'text': 'Isolation is decided by frame obligations, not by exploring schedules: _run keeps all parse state in locals (proved), emitted rule code assigns only '
+                'locals and stores only the span of the instance it just built (proved heap frame), _finalize_parse_info writes only position_info of this call\'s '
+                'instances (closed-form heap invariant), no function writes module-level state or reads module-level data other than compiled matchers / implementations / '
+                'the context / the run-time library, and the generator writes only sys.modules[name].',
+        'design_ref': 'DESIGN.md 6 C18',
+        'note': 'Schedules and thread interleavings are NOT explored: the step from disjoint write frames to non-interference is a paper argument (A-noninterf); re patterns assumed immutable and thread-safe; user code pure.',
+    },
+    'C19': {
+        'category': 'other',
+        'technique': 'case-complete comparison of emitted text for alternative spellings over abstract operands + ground obligations on grammar.txt\'s own syntax tree',
+        'text': 'For each pair of the statement the real front end maps both spellings (over abstract operands) to objects that emit identical code for every child-flag '
+                'combination and both conventions; alternative separators / statement separators / comments / line breaks / parentheses / ignore(d) / bare expression '
+                'give identical syntax trees on representatives; unparenthesised operators group as grammar.txt says (13 grouping cases + the table rows themselves).',
+        'design_ref': 'DESIGN.md 6 C19',
+        'note': 'Level "other": the step from representatives to every combination of layouts on every grammar rests on C01-C03/C02 (meaning of the discarding projections) and C12, on paper.',
+    },
 }
